@@ -153,6 +153,97 @@ fn raw_forms(ctx: &'static Ctx) -> u64 {
             }
         }
     });
+    // structures whose fields are public: a caller may set any of them after construction, and the raw form must still be
+    // the serialised form for every value (the value principle): each public field of Rsdp, FACS and GAS through all byte
+    // values / util::value_set, one field at a time and all of them together
+    {
+        fn one<X: Aml + IntoBytes + zerocopy::Immutable>(ctx: &Ctx, n: &AtomicU64, name: &str, x: &X, what: String) {
+            let (raw, s) = (x.as_bytes().to_vec(), ser(x));
+            n.fetch_add(1, Ordering::Relaxed);
+            ctx.tr(1);
+            if raw != s || u8sum(x) != sum8(&raw) {
+                ctx.violation_sized(&format!("raw:{}:public-field", name), 0, || format!("{} with {}: as_bytes {} ; serialised {} ; u8sum {} vs {}", name, what, hex(&raw), hex(&s), u8sum(x), sum8(&raw)), || json!({"family":"raw-form-field","type":name,"set":what}));
+            }
+        }
+        use acpi_tables::facs::FACS;
+        use acpi_tables::rsdp::Rsdp;
+        let v32 = crate::util::value_set(32, 0x0403_0201, ctx.quick());
+        let v64 = crate::util::value_set(64, 0x0807_0605_0403_0201, ctx.quick());
+        let rs = || Rsdp::new(*b"VERIF1", 0x0807_0605_0403_0201);
+        for v in 0..=255u8 {
+            let mut x = rs();
+            x.revision = v;
+            one(ctx, &n, "Rsdp", &x, format!("revision = {}", v));
+            let mut x = rs();
+            x.checksum = v;
+            one(ctx, &n, "Rsdp", &x, format!("checksum = {}", v));
+            let mut x = rs();
+            x.extended_checksum = v;
+            one(ctx, &n, "Rsdp", &x, format!("extended_checksum = {}", v));
+            for i in 0..8 {
+                let mut x = rs();
+                x.signature[i] = v;
+                one(ctx, &n, "Rsdp", &x, format!("signature[{}] = {}", i, v));
+            }
+            for i in 0..6 {
+                let mut x = rs();
+                x.oem_id[i] = v;
+                one(ctx, &n, "Rsdp", &x, format!("oem_id[{}] = {}", i, v));
+            }
+            let mut x = rs();
+            x.revision = v;
+            x.checksum = v;
+            x.extended_checksum = !v;
+            x.signature = [v; 8];
+            x.oem_id = [v; 6];
+            x.length = (v as u32 * 0x0101_0101).into();
+            x.xsdt_addr = (v as u64 * 0x0101_0101_0101_0101).into();
+            one(ctx, &n, "Rsdp", &x, format!("every field = {}", v));
+            let mut y = FACS::new();
+            y.version = v;
+            one(ctx, &n, "FACS", &y, format!("version = {}", v));
+            for i in 0..4 {
+                let mut y = FACS::new();
+                y.signature[i] = v;
+                one(ctx, &n, "FACS", &y, format!("signature[{}] = {}", i, v));
+            }
+            let mut g = tables::real_gas(&Fill::b(2), 0);
+            g.register_bit_width = v;
+            one(ctx, &n, "GAS", &g, format!("register_bit_width = {}", v));
+            let mut g = tables::real_gas(&Fill::b(2), 0);
+            g.register_bit_offset = v;
+            one(ctx, &n, "GAS", &g, format!("register_bit_offset = {}", v));
+        }
+        for v in &v32 {
+            let v = *v as u32;
+            let mut x = rs();
+            x.length = v.into();
+            one(ctx, &n, "Rsdp", &x, format!("length = {:#x}", v));
+            for fi in 0..6 {
+                let mut y = FACS::new();
+                match fi {
+                    0 => y.length = v.into(),
+                    1 => y.hardware_signature = v.into(),
+                    2 => y.waking = v.into(),
+                    3 => y.lock = v.into(),
+                    4 => y.flags = v.into(),
+                    _ => y.ospm_flags = v.into(),
+                }
+                one(ctx, &n, "FACS", &y, format!("32-bit field #{} = {:#x}", fi, v));
+            }
+        }
+        for v in &v64 {
+            let mut x = rs();
+            x.xsdt_addr = (*v).into();
+            one(ctx, &n, "Rsdp", &x, format!("xsdt_addr = {:#x}", v));
+            let mut y = FACS::new();
+            y.x_waking = (*v).into();
+            one(ctx, &n, "FACS", &y, format!("x_waking = {:#x}", v));
+            let mut g = tables::real_gas(&Fill::b(2), 0);
+            g.address = (*v).into();
+            one(ctx, &n, "GAS", &g, format!("address = {:#x}", v));
+        }
+    }
     n.load(Ordering::Relaxed)
 }
 
